@@ -318,8 +318,10 @@ WellFormed(P) ==
             \* annotated name without value: not with global/nonlocal
             \* attribute references are written for unnamed classes only (`C2().n`)
             /\ (\E op \in AttrOps : Has(P, s, op, n)) => (Kind(P, s) = "class" /\ SName(P, s) = NoName)
-            /\ Has(P, s, "resattr", n) => Has(P, s, "kwcall", n)
-            /\ Has(P, s, "kwrecall", n) => (Has(P, s, "kwcall", n) /\ Has(P, s, "resattr", n))
+            \* (the attribute is read from the first call's result: there must be such a call; its
+            \*  spelling is independent of the parameters' - Rename of the parameter leaves it alone)
+            /\ Has(P, s, "resattr", n) => \E m \in AllNames : Has(P, s, "kwcall", m)
+            /\ Has(P, s, "kwrecall", n) => (Has(P, s, "kwcall", n) /\ \E m \in AllNames : Has(P, s, "resattr", m))
             \* the second call repeats every keyword of the first
             /\ (Has(P, s, "kwcall", n) /\ \E m \in AllNames : Has(P, s, "kwrecall", m)) => Has(P, s, "kwrecall", n)
             /\ (Has(P, s, "resattr", n) \/ Has(P, s, "kwrecall", n)) => SName(P, s) = NoName
